@@ -27,7 +27,11 @@ RULE = ("signal length N in 2..65 (odd and even, every length hit in the thoroug
         "shift-invariance, Hermitian symmetrisation, energy, delay/drop) on the implementation alone; samples and times "
         "also as int64 / float32 arrays, lists, tuples, integer time grids; every case is filtered twice with the "
         "same response object (nothing remembered, response table and caller arrays untouched), through a copy "
-        "(original, product and with_times handles unchanged) and evaluate-filter-evaluate on one handle")
+        "(original, product and with_times handles unchanged) and evaluate-filter-evaluate on one handle; the signal is "
+        "rescaled by 1e-300 .. 1e290 (homogeneity in the amplitude, nothing thresholded); function-backed signals "
+        "carry chains of 2-3 filters with DIFFERENT force_real flags and complex non-Hermitian responses, compared "
+        "with the product of the per-filter tables (each mirrored by its own flag) and under reversal of the order; "
+        "buffered FunctionSignals are compared with filtering on the extended grid")
 LEVEL_TEXT = ("theorems C05_* proved over R/C for every length N>=1, every sampling step dt != 0, every signal and every "
               "response function: the pair-DFT of the model is Mathlib's ZMod.dft (bridge lemma), hence linear, "
               "homogeneous, identity for the unit response, offset-free, force_real = Hermitian symmetrisation "
@@ -471,6 +475,58 @@ def _check_case(run, case):
     if len(out) != n or not np.all(np.isfinite(out)):
         fail("shape", [len(out)], [n], "filtered values have the wrong length or are not finite")
         return
+    if which in ("all", "scale"):
+        # homogeneous in the signal over the whole floating-point range: tiny samples are not thresholded away
+        xh = x / vmax
+        base = run_filter(ps, times, xh, fn, fr, cls)
+        for c in ([1e-300, 1e-150, 1e-18, 1e-15, 1e100] + ([1e290] if n <= 600 else [])):
+            oc = run_filter(ps, times, c * xh, fn, fr, cls)
+            d = float(np.max(np.abs(oc / c - base)))
+            if not np.all(np.isfinite(oc)) or d > 4e-9 * gain * max(1.0, math.log2(n)):
+                j = int(np.argmax(np.abs(oc / c - base)))
+                fail("scale", [c, j, float(oc[j] / c)], [c, j, float(base[j])],
+                     "filter(c x) != c filter(x) for a signal of amplitude %g" % c)
+                break
+    if which in ("all", "stack") and case.get("stack"):
+        # a chain of filters with their own force_real flags on ONE function-backed signal: the code multiplies
+        # the per-filter response tables (each mirrored according to its own flag) and filters once
+        import scipy.fft
+        chain = [(kind, p1, p2, fr, so)] + [tuple(q) for q in case["stack"]]
+        t = np.array(times, dtype=float)
+        v = np.array(x, dtype=float)
+        freqs = scipy.fft.fftfreq(2 * n, d=dte)
+
+        def table(k_, a_, b_, fr_, so_):
+            f_ = resp_fn(k_, a_, b_, None)
+            if fr_:
+                r_ = np.array(f_(np.abs(freqs)), dtype=complex)
+                return np.where(freqs < 0, np.conj(r_), r_)
+            return np.array(f_(freqs), dtype=complex)
+
+        def chained(order):
+            fsig = ps.FunctionSignal(t.copy(), lambda q: np.interp(q, t, v))
+            for k_, a_, b_, fr_, so_ in order:
+                fsig.filter_frequencies(resp_fn(k_, a_, b_, so_), force_real=fr_)
+            return np.array(fsig.values, dtype=float)
+        tab = np.ones(2 * n, dtype=complex)
+        g2 = 1.0
+        for q in chain:
+            tab = tab * table(*q)
+            g2 *= max(1.0, resp_max(q[0], q[1], q[2]))
+        exp = np.real(scipy.fft.ifft(tab * scipy.fft.fft(np.concatenate((v, np.zeros(n))))))[:n]
+        got = chained(chain)
+        tol2 = 1e-9 * vmax * g2 * max(1.0, math.log2(n))
+        if float(np.max(np.abs(got - exp))) > 4 * tol2:
+            j = int(np.argmax(np.abs(got - exp)))
+            fail("stack", [j, float(got[j])], [j, float(exp[j])],
+                 "a chain of filters with force_real flags %s is not the product of the per-filter responses, each "
+                 "mirrored according to its own flag" % [bool(q[3]) for q in chain])
+        else:
+            rev = chained(chain[::-1])
+            if float(np.max(np.abs(rev - got))) > 4 * tol2:
+                j = int(np.argmax(np.abs(rev - got)))
+                fail("stack-order", [j, float(rev[j])], [j, float(got[j])],
+                     "the result of a filter chain depends on the order in which the filters were added")
     if which in ("all", "reuse"):
         # the same response object and the same samples again: nothing may be remembered, nothing may have been
         # written into the response's own table or into the caller's arrays
@@ -665,6 +721,20 @@ def gen_case(run, nmax, i):
         case["d"] = d
     else:
         case["resp"] = list(random_response(rng, n, dte, allow_gain=rng.random() < 0.5))
+    if case["cls"] == "FunctionSignal" and rng.random() < 0.7:
+        # further filters on the same object, with their own flags; complex non-Hermitian responses so the flag matters
+        stack = []
+        for _ in range(rng.randint(1, 2)):
+            k2 = rng.choice(["onesided", "rc", "const", "cdelay", "delay", "lowpass"])
+            nyq = 0.5 / dte
+            pr = {"onesided": (rng.uniform(-1, 1), rng.uniform(-1, 1)), "rc": (rng.uniform(0.05, 1.5) * nyq, 0.0),
+                  "const": (rng.uniform(-1, 1), rng.uniform(-1, 1)), "cdelay": (rng.uniform(0, n) * dte, rng.uniform(-1, 1)),
+                  "delay": (rng.randint(0, n) * dte, 0.0),
+                  "lowpass": ((rng.randint(0, n) + 0.5) / (2 * n * dte), 0.0)}[k2]
+            stack.append([k2, pr[0], pr[1], rng.random() < 0.5, random_scalar_only(rng) if n <= 600 else None])
+        if all(bool(q[3]) == bool(case["force_real"]) for q in stack):
+            stack[-1][3] = not case["force_real"]          # at least one flag differs
+        case["stack"] = stack
     case["form"] = rng.choice(FORMS) if case["cls"] == "Signal" else None
     if case["form"] == "inttimes":
         # an integer time grid (Signal(range(N), ...)): dt = 1, integer offset
